@@ -525,6 +525,8 @@ class Check:
         # The library's code differs from the tree this machinery was validated against and the usual budget found nothing:
         # search further - a random sample (three times the usual number of cases) of the THOROUGH tier's inputs, other seed.
         self.changed_modules = source_changed()
+        if os.environ.get("VERIF_FORCE_ESCALATION"):        # self-test of the further search on an unchanged tree
+            self.changed_modules = self.changed_modules or ["(forced)"]
         self.escalated = 0
         if budget == "quick" and self.changed_modules and not first_viol and not first_corr and not os.environ.get("VERIF_NO_ESCALATION"):
             n0 = self.stats.get("evaluations", 0)
